@@ -99,10 +99,10 @@ FAMILIES = {"statements": fam_statements, "elif": fam_elif, "binop": fam_binop, 
 for _pos in POSITIONS:
     FAMILIES["chain@" + _pos] = fam_position(_pos)
 SCHEDULE = {
-    "quick": {"statements": [10, 300, 3000], "elif": [10, 100, 600], "binop": [10, 300, 900], "calls": [10, 300, 900],
+    "quick": {"statements": [10, 300, 3000], "elif": [10, 100, 600, 1200], "binop": [10, 300, 900], "calls": [10, 300, 900],
               "attrs": [10, 300, 900], "attr_target": [10, 300, 900], "nested_if": [5, 40, 95], "nested_for": [5, 19],
               "nested_def": [5, 19], "pattern": [5, 30, 90]},
-    "thorough": {"statements": [10, 100, 1000, 3000, 10000, 30000], "elif": [10, 100, 300, 600, 900], "binop": [10, 100, 300, 600, 900],
+    "thorough": {"statements": [10, 100, 1000, 3000, 10000, 30000], "elif": [10, 100, 300, 600, 900, 1200, 2000], "binop": [10, 100, 300, 600, 900],
                  "calls": [10, 100, 300, 600, 900], "attrs": [10, 100, 300, 600, 900], "attr_target": [10, 100, 300, 600, 900],
                  "nested_if": [5, 20, 50, 90, 99], "nested_for": [5, 10, 19, 20], "nested_def": [5, 10, 19], "pattern": [5, 30, 60, 90]},
 }
